@@ -608,12 +608,15 @@ def _read_percolator(ctx, f):
     L = {k: got.get(k) for k in roles}
     # ---- spectrum key
     sp = got.get("spectrum_columns")
-    want_list = ("list", (L["filename_column"], L["scan_column"],
-                          L["rt_column"], L["expmass_column"]))
-    ok = (sp is not None and sp[0] == "comp" and len(sp[3]) == 1
-          and sp[3][0][1] == want_list and sp[2] == ("elem", want_list)
-          and sp[3][0][2] == (("cmp", "is not", ("elem", want_list),
-                               ("const", None)),))
+    want_elems = (L["filename_column"], L["scan_column"],
+                  L["rt_column"], L["expmass_column"])
+    ok = False
+    if sp is not None and sp[0] == "comp" and sp[1] in ("list", "tuple") \
+            and len(sp[3]) == 1:
+        src = sp[3][0][1]
+        if src[0] in ("list", "tuple") and src[1] == want_elems:
+            ok = sp[2] == ("elem", src) and sp[3][0][2] == (
+                ("cmp", "is not", ("elem", src), ("const", None)),)
     ctx.check(ok, "C10c-spectrum-key", f,
               "spectrum key = the available ones of file, scan, retention "
               "time, mass - in that order",
